@@ -8,7 +8,9 @@ coordinate polynomial by Sturm root isolation over Q (Beziers), analytic critica
 angles filtered by the independently computed sweep (arcs).
 """
 import itertools
+import cmath
 import math
+import warnings
 from fractions import Fraction
 
 from mc import core, refgeom
@@ -122,6 +124,8 @@ def check_bezier(name, rot, scale, acc):
     acc.case(case, cls='%s/%s/%s' % (kind, degenerate, 'interior_extremum' if interior else 'endpoints_only'),
              nontrivial=interior)
     check_box(seg, tb, 1e-9 * size, case, acc, {'kind': kind, 'degenerate': degenerate})
+    if rot in (0, 37) and scale == 1.0:
+        check_pieces(seg, case, acc)
 
 
 LATTICE_T = [0j, 1 + 0j, 1j, 2.5 - 1j, -0.3 + 0.7j, 0.1 + 1j / 3, 4 + 4j, -2 - 0.5j, 1e-6 + 0j]
@@ -184,14 +188,70 @@ def arc_from_center(rx, ry, phi, th1, dth, center=1.5 - 0.5j):
     return (pt(th1), complex(rx, ry), phi, abs(dth) > 180, dth > 0, pt(th1 + dth))
 
 
-def check_arc(spec, case, acc):
-    seg = Arc(*spec)
+PIECES = [('cropped', 0.25, 0.6), ('cropped', 0.5, 1.0), ('cropped', 0.0, 0.5), ('cropped', 0.8, 0.2), ('split0', 0.5, None), ('split1', 0.5, None), ('split1', 0.125, None)]
+
+
+def check_pieces(seg, case, acc, only=None):
+    for how, a, b in PIECES:
+        if only is not None and only != [how, a, b]:
+            continue
+        with warnings.catch_warnings():
+            warnings.simplefilter('ignore')
+            r = outcome(lambda: seg.cropped(a, b) if how == 'cropped' else seg.split(a)[int(how[-1])])
+        c = dict(case, piece=[how, a, b])
+        if r[0] != 'ok':
+            if how == 'cropped' and a > b:
+                continue        # descending windows are refused for some kinds: C09's question
+            acc.violation('bbox_raises', {'kind': type(seg).__name__[0], 'piece': how, 'exc': r[1]}, c, observed=r)
+            continue
+        piece = r[1]
+        if isinstance(piece, Arc):
+            tb, ncrit = arc_true_box(piece)
+            size = abs(piece.radius.real) + abs(piece.radius.imag) + abs(piece.center)
+            slack = 2 * max(abs(piece.point(0) - piece.start), abs(piece.point(1) - piece.end))
+            # (the nominal end points are allowed to be ~1e-8 of the size away from point(0), point(1): C04 / C09)
+            if slack > 1e-6 * size:
+                acc.violation('piece_does_not_start_or_end_where_it_says', {'kind': 'A', 'piece': how}, c, observed=[piece.point(0), piece.point(1)], expected=[piece.start, piece.end])
+                continue
+            acc.case(c, cls='A/piece/%s' % how)
+            check_box(piece, tb, max(1e-9 * size, slack), c, acc, {'kind': 'A', 'piece': how})
+        else:
+            pts = list(piece.bpoints())
+            size = max(abs(complex(p)) for p in pts) + 1e-300
+            acc.case(c, cls='%s/piece/%s' % (type(piece).__name__[0], how))
+            check_box(piece, bezier_true_box(pts), 1e-9 * size, c, acc, {'kind': type(piece).__name__[0], 'piece': how})
+
+
+def check_strict_small(acc, only=None):
+    """arcs built with autoscale_radius=False whose radii are a hair too small for the chord (no ellipse fits): the
+    constructor refuses them; if it ever hands one out, the box property must hold for it like for any arc"""
+    for shrink in (1e-8, 1e-6, 5e-6, 1e-5, 1e-4, 1e-3):
+        for (s_, e_, ratio, rot) in ((0j, 100 + 100j, 1.0, 0.0), (1 + 1j, 41 - 9j, 0.5, 30.0), (-3j, 7 + 2j, 2.0, -45.0)):
+            for la, sw in ((0, 0), (0, 1), (1, 0), (1, 1)):
+                case = {'what': 'strict_small', 'shrink': shrink, 'ends': [core.jz(s_), core.jz(e_)], 'ratio': ratio, 'rot': rot, 'flags': [la, sw]}
+                if only is not None and only != case:
+                    continue
+                # the smallest fitting ellipse with this axis ratio and rotation: lambda == 1 for radii (r, ratio r)
+                h = (e_ - s_) / 2 * cmath.exp(-1j * math.radians(rot))
+                r = math.sqrt(h.real ** 2 + (h.imag / ratio) ** 2)
+                radius = complex(r * (1 - shrink), ratio * r * (1 - shrink))
+                got = outcome(lambda: Arc(s_, radius, rot, la, sw, e_, autoscale_radius=False))
+                acc.case(case, cls='A/strict_too_small/%s' % ('refused' if got[0] != 'ok' else 'constructed'))
+                if got[0] == 'ok':
+                    check_arc(None, case, acc, seg=got[1])
+
+
+def check_arc(spec, case, acc, seg=None):
+    seg = Arc(*spec) if seg is None else seg
     tb, ncrit = arc_true_box(seg)
     size = abs(seg.radius.real) + abs(seg.radius.imag) + abs(seg.center)
+    if spec is None:
+        spec = (seg.start, seg.radius, seg.rotation, seg.large_arc, seg.sweep, seg.end)
     acc.case(case, cls='A/crit%d/%s' % (min(ncrit, 4), 'axis_aligned' if spec[2] % 90 == 0 else 'rotated'), nontrivial=ncrit > 0)
     # bbox() may use the nominal end points while the curve is point(t); how far those are apart
     # is C04's question, so that distance is granted here
-    slack = 2 * max(abs(seg.point(0) - seg.start), abs(seg.point(1) - seg.end))
+    # (granted up to 1e-6 of the size: beyond that the curve simply does not reach the end points its box is built from)
+    slack = min(2 * max(abs(seg.point(0) - seg.start), abs(seg.point(1) - seg.end)), 1e-6 * size)
     check_box(seg, tb, max(1e-9 * size, slack), case, acc, {'kind': 'A', 'rotated': spec[2] % 90 != 0, 'sweep': bool(spec[4])})
 
 
@@ -246,9 +306,11 @@ def shards(tier, seed):
     out += [{'what': 'bezier', 'shape': n} for n in list(AB.LINES) + list(AB.QUADS) + list(AB.CUBICS)]
     out += [{'what': 'elevated', 'k': k} for k in range(4)]
     out += [{'what': 'arcs', 'k': k} for k in range(8)]
-    out += [{'what': 'libarcs'}, {'what': 'paths'}, {'what': 'int_beziers'}, {'what': 'negative_radius_arcs'}]
+    out += [{'what': 'libarcs'}, {'what': 'paths'}, {'what': 'int_beziers'}, {'what': 'negative_radius_arcs'}, {'what': 'strict_small'}]
     out += AB.provenance_shards(out, tier, lambda d: d['what'] in ('bezier', 'libarcs'))
     out += AB.provenance_shards(out, tier, lambda d: d['what'] in ('paths', 'long'), key='pprov')
+    if {'what': 'libarcs', 'prov': 'strict_arc'} not in out:
+        out.append({'what': 'libarcs', 'prov': 'strict_arc'})
     if tier == 'thorough':
         out += [{'what': 'lattice', 'part': [i, 32]} for i in range(32)]
     return out
@@ -313,13 +375,17 @@ def run_shard(desc, tier, seed):
             for rot in (30.0, 0.0, 90.0, -45.0, 123.4):
                 for la, sw in ((0, 0), (0, 1), (1, 0), (1, 1)):
                     check_arc((0j, complex(rx, ry), rot, la, sw, 40 + 30j), {'what': 'negarc', 'radius': [rx, ry], 'rot': rot, 'flags': [la, sw]}, acc)
+    elif desc['what'] == 'strict_small':
+        check_strict_small(acc)
     elif desc['what'] == 'libarcs':
         for n in AB.ARCS:
             for rot in ROTS:
                 seg = AB.make(n, rot=rot)
                 spec = (seg.start, complex(*[abs(v) for v in (AB.ARCS[n][1].real, AB.ARCS[n][1].imag)]), seg.rotation,
                         seg.large_arc, seg.sweep, seg.end)
-                check_arc(spec, {'what': 'libarc', 'shape': n, 'rot': rot}, acc)
+                check_arc(spec, {'what': 'libarc', 'shape': n, 'rot': rot}, acc, seg=seg if core.CONTEXT.get('prov') else None)
+                # pieces of the arc (cropped / split hand out new Arc objects with derived parameters)
+                check_pieces(seg, {'what': 'libarc', 'shape': n, 'rot': rot}, acc)
     elif desc['what'] == 'long':
         from mc import longpaths as LP
         for n in (LP.SIZES_QUICK if tier == 'quick' else LP.SIZES_THOROUGH):
@@ -356,17 +422,23 @@ def replay(case):
         check_arc((0j, complex(*case['radius']), case['rot'], case['flags'][0], case['flags'][1], 40 + 30j), case, acc)
     elif w == 'long':
         check_long(case['n'], case['kinds'], case['variant'], acc)
+    elif w == 'strict_small':
+        check_strict_small(acc, only={k: v for k, v in case.items() if k not in ('piece',)})
+    elif w == 'bezier' and 'piece' in case:
+        check_pieces(AB.make(case['shape'], case['scale'], rot=case['rot']), {k: v for k, v in case.items() if k != 'piece'}, acc, only=case['piece'])
     elif w == 'bezier':
         check_bezier(case['shape'], case['rot'], case['scale'], acc)
     elif w == 'elevated':
         check_elevated(tuple(case['x']), tuple(case['y']), acc)
     elif w == 'arc':
         check_arc(arc_from_center(*case['grid']), case, acc)
+    elif w == 'libarc' and 'piece' in case:
+        check_pieces(AB.make(case['shape'], rot=case['rot']), {k: v for k, v in case.items() if k != 'piece'}, acc, only=case['piece'])
     elif w == 'libarc':
         seg = AB.make(case['shape'], rot=case['rot'])
         n = case['shape']
         spec = (seg.start, complex(abs(AB.ARCS[n][1].real), abs(AB.ARCS[n][1].imag)), seg.rotation, seg.large_arc, seg.sweep, seg.end)
-        check_arc(spec, case, acc)
+        check_arc(spec, case, acc, seg=seg if core.CONTEXT.get('prov') else None)
     else:
         check_path(tuple(case['word']), acc)
     return acc.vlist
